@@ -2040,8 +2040,12 @@ static int64_t eval3(Node *node, char ***label) {
     return val;
   }
   case ND_ADDR:
+    if (!label)
+      error_tok(node->tok, "not a compile-time constant");
     return eval_rval(node->lhs, label);
   case ND_LABEL_VAL:
+    if (!label)
+      error_tok(node->tok, "not a compile-time constant");
     *label = &node->unique_label;
     return 0;
   case ND_MEMBER:
